@@ -60,6 +60,9 @@ def gen_cases(rng, tier):
                       "drop_stddev": rng.choice([1, 2, 1, 2, None]) if planted else rng.choice([None, None, 1, 2]),
                       "max_it": rng.randint(4, 10) if planted else rng.randint(1, 5),
                       "window": rng.choice([None, 2]), "penalty": rng.choice([None, 1]),
+                      # thr: the loop also stops when the means move by at most thr; a coarse value makes that rule fire
+                      # while assignments are still changing (the default 1e-4 practically never does)
+                      "thr": rng.choice([None, None, 0.05, 0.3, 1.0, 3.0]),
                       "use_c": rng.random() < 0.5, "parallel": rng.random() < 0.05})
     return cases
 
@@ -81,8 +84,9 @@ def impl_run(case):
     opts = {k: case[k] for k in ("window", "penalty") if case[k] is not None}
     if case["use_c"]:
         opts["use_c"] = True
+    kw = {} if case.get("thr") is None else {"thr": case["thr"]}
     model = KMeans(k=case["k"], max_it=case["max_it"], max_dba_it=3, drop_stddev=case["drop_stddev"],
-                   dists_options=opts, show_progress=False,
+                   dists_options=opts, show_progress=False, **kw,
                    initialize_with_kmeanspp=(case["init"] in ("kmeanspp", "sample")),
                    initialize_sample_size=case["sample_size"])
     cluster_idx, performed_it = model.fit(data, use_parallel=case["parallel"])
